@@ -869,7 +869,9 @@ func (d *refreshDebouncer) stop() {
 	}
 	d.stopped = true
 	d.mu.Unlock()
-	d.quit <- struct{}{} // sync with flusher
+	// Wake the flusher by closing quit instead of sending on it: the flusher may already have been woken by
+	// refreshNowCh or the timer, see stopped and return without ever receiving from quit, which left stop()
+	// (and Session.Close) blocked forever on the unbuffered send.
 	close(d.quit)
 }
 
